@@ -165,7 +165,7 @@ func ruleA1(c *Ctx) {
 			rl = append(rl, l)
 		}
 	}
-	okR := len(rl) >= 2
+	okR := len(rl) >= 1
 	for _, l := range rl {
 		if l != lim {
 			okR = false
@@ -188,39 +188,102 @@ func ruleA2(c *Ctx) {
 		c.anchorFail("opcode CALL not found")
 		return
 	}
-	for name, off := range map[string]int64{"CALL_VAR": 1, "CALL_KW": 2, "CALL_VAR_KW": 3} {
-		key := "opcode " + name + " = CALL+" + fmt.Sprint(off)
-		if oi.byName[name] == base+off {
-			c.ok(key, "-", "matches callmode bits")
-		} else {
-			c.viol(key, "-", fmt.Sprintf("%s is CALL%+d but the compiler emits CALL + callmode with bit 1 = *args and bit 2 = **kwargs", name, oi.byName[name]-base))
-		}
-	}
-	// compiler: callmode |= 1 under STAR, |= 2 under STARSTAR; push order varargs then kwargs
 	args, cpk := c.P.FuncDecl(compilePkg, "fcomp.args")
 	if args == nil {
 		c.anchorFail("fcomp.args not found")
 		return
 	}
-	bits := map[string]int64{}
+	// how is the opcode derived from callmode: arithmetic (CALL + Opcode(callmode)) or a lookup table?
+	usesArith, tableName := false, ""
 	ast.Inspect(args.Body, func(n ast.Node) bool {
-		ifs, ok := n.(*ast.IfStmt)
-		if !ok {
-			return true
-		}
-		be, ok := ifs.Cond.(*ast.BinaryExpr)
-		if !ok || be.Op != token.EQL {
-			return true
-		}
-		sel, ok := be.Y.(*ast.SelectorExpr)
-		if !ok {
-			return true
-		}
-		for _, st := range ifs.Body.List {
-			if as, ok := st.(*ast.AssignStmt); ok && as.Tok == token.OR_ASSIGN {
-				if k, isK := constOf(cpk.TypesInfo, as.Rhs[0]); isK {
-					bits[sel.Sel.Name] = k
+		switch x := n.(type) {
+		case *ast.BinaryExpr:
+			if x.Op == token.ADD {
+				if id, ok := x.X.(*ast.Ident); ok && id.Name == "CALL" {
+					usesArith = true
 				}
+			}
+		case *ast.IndexExpr:
+			if id, ok := x.X.(*ast.Ident); ok {
+				if ix, ok := x.Index.(*ast.Ident); ok && ix.Name == "callmode" {
+					tableName = id.Name
+				}
+			}
+		}
+		return true
+	})
+	want := map[int64]string{0: "CALL", 1: "CALL_VAR", 2: "CALL_KW", 3: "CALL_VAR_KW"}
+	switch {
+	case usesArith:
+		for off, name := range want {
+			if off == 0 {
+				continue
+			}
+			key := "opcode " + name + " = CALL+" + fmt.Sprint(off)
+			if oi.byName[name] == base+off {
+				c.ok(key, "-", "matches callmode bits")
+			} else {
+				c.viol(key, "-", fmt.Sprintf("%s is CALL%+d but the compiler emits CALL + callmode with bit 1 = *args and bit 2 = **kwargs", name, oi.byName[name]-base))
+			}
+		}
+	case tableName != "":
+		tbl, _, tpos := arrayLitEntries(c.P.Pkg(compilePkg), tableName)
+		for bitsv, name := range want {
+			key := fmt.Sprintf("%s[%d] = %s", tableName, bitsv, name)
+			e, ok := tbl[bitsv]
+			got := ""
+			if ok {
+				got = types.ExprString(e)
+			}
+			if got == name {
+				c.ok(key, c.P.Pos(tpos), "call-mode table entry matches callmode bits")
+			} else {
+				c.viol(key, c.P.Pos(tpos), fmt.Sprintf("call-mode table maps mode %d to %q, expected %s (bit 1 = *args, bit 2 = **kwargs)", bitsv, got, name))
+			}
+		}
+	default:
+		c.anchorFail("cannot find how fcomp.args derives the CALL opcode from callmode")
+	}
+	// compiler: callmode |= 1 under STAR, |= 2 under STARSTAR (if or switch form); push order varargs then kwargs
+	bits := map[string]int64{}
+	var stack []ast.Node
+	ast.Inspect(args.Body, func(n ast.Node) bool {
+		if n == nil {
+			stack = stack[:len(stack)-1]
+			return true
+		}
+		stack = append(stack, n)
+		as, ok := n.(*ast.AssignStmt)
+		if !ok || as.Tok != token.OR_ASSIGN {
+			return true
+		}
+		k, isK := constOf(cpk.TypesInfo, as.Rhs[0])
+		if !isK {
+			return true
+		}
+		// nearest enclosing condition naming a token
+		for i := len(stack) - 2; i >= 0; i-- {
+			var exprs []ast.Expr
+			switch x := stack[i].(type) {
+			case *ast.IfStmt:
+				exprs = []ast.Expr{x.Cond}
+			case *ast.CaseClause:
+				exprs = x.List
+			default:
+				continue
+			}
+			name := ""
+			for _, e := range exprs {
+				ast.Inspect(e, func(m ast.Node) bool {
+					if sel, ok := m.(*ast.SelectorExpr); ok && (sel.Sel.Name == "STAR" || sel.Sel.Name == "STARSTAR") {
+						name = sel.Sel.Name
+					}
+					return true
+				})
+			}
+			if name != "" {
+				bits[name] = k
+				break
 			}
 		}
 		return true
